@@ -133,7 +133,7 @@ pub fn parse_u64_digits<'a, Iter, const FORMAT: u128>(
     // Parse single digits at a time.
     for &c in iter {
         let digit = char_to_valid_digit_const(c, radix as u32);
-        if !*overflowed {
+        if !*overflowed && *step > 0 {
             let result = mantissa.checked_mul(radix).and_then(|x| x.checked_add(digit as u64));
             if let Some(mant) = result {
                 *mantissa = mant;
